@@ -324,6 +324,16 @@ fn check() {
         ("request.source", |r| r.source.to_string()),
         ("`${request.listener}-${request.target.host}`", |r| format!("{}-{}", r.listener, r.target.host())),
         ("to_string(request.target.port)", |r| r.target.port().to_string()),
+        // the same keys behind the language's wrappers: a name, a chain of names, a conditional, an aggregate. A key
+        // the loader refuses is no key (a limitation, marked `?`); one it accepts is a function of the request
+        ("?let h = request.target.host in h", |r| r.target.host()),
+        ("?let h = request.target.host in let k = h in k", |r| r.target.host()),
+        ("?let a = request.listener in let b = a in let c = b in c", |r| r.listener.clone()),
+        ("?let h = request.target.host in `${h}`", |r| r.target.host()),
+        ("?if request.target.port == 0 then request.listener else request.target.host", |r| if r.target.port() == 0 { r.listener.clone() } else { r.target.host() }),
+        ("?[request.target.host][0]", |r| r.target.host()),
+        ("?(request.target.host, 1).0", |r| r.target.host()),
+        ("?let t = request.target in t.host", |r| r.target.host()),
     ];
     // request pool: the same key strings are reached through different address forms / different other attributes
     let pool: Vec<Req> = {
@@ -346,6 +356,11 @@ fn check() {
     };
     for &n in &member_counts {
         for (key, keyfn) in &keys {
+            let (key, optional) = match key.strip_prefix('?') {
+                Some(k) => (k, true),
+                None => (*key, false),
+            };
+            let key = &key;
             let log: Log = Default::default();
             let mut cs = members(n, &log);
             let algo = format!("algo:\n  hashBy: {}", serde_json::to_string(key).unwrap());
@@ -353,7 +368,10 @@ fn check() {
                 Ok(Ok(mut b)) => match block_on(b.init()) {
                     Ok(()) => Arc::from(b),
                     Err(e) => {
-                        chk.violation("loadbalance.init", "string-key-rejected", format!("hashBy {key}: init failed: {e}"), json!({"key": key}));
+                        if !optional {
+                            chk.violation("loadbalance.init", "string-key-rejected", format!("hashBy {key}: init failed: {e}"), json!({"key": key}));
+                        }
+                        outcomes.add(&(n, key, "refused"));
                         continue;
                     }
                 },
@@ -364,9 +382,12 @@ fn check() {
             block_on(lb.verify(state.clone())).expect("verify");
             let mut seen: std::collections::HashMap<String, (String, String)> = Default::default();
             // every request of the pool twice (also checks repeatability)
-            for r in pool.iter().chain(pool.iter()) {
+            for (pass, r) in pool.iter().map(|r| (0, r)).chain(pool.iter().map(|r| (1, r))).chain(pool.iter().map(|r| (2, r))) {
                 selections += 1;
                 let kv = keyfn(r);
+                // (third pass: with other allocations in between, so that nothing that depends on where a value
+                // happens to live repeats by accident)
+                let _ballast: Vec<Vec<u8>> = if pass == 2 { (0..(selections % 7 + 1)).map(|i| vec![0u8; 24 + 16 * i as usize]).collect() } else { vec![] };
                 match catch(|| block_on(select(&lb, &state, &log, r))) {
                     Ok(Ok((used, rec))) => {
                         outcomes.add(&(n, key, &used));
